@@ -108,6 +108,13 @@ Inductive seek_result :=
 
 Record seek_out := { so_res : seek_result; so_offset : Z; so_requests : N }.
 
+(* FirstOffset / LastOffset held in c.offset are placeholders for "start" / "end" *)
+Definition is_sentinel (cur : Z) : bool := (cur =? FirstOffset) || (cur =? LastOffset).
+
+(* the position a placeholder stands for, once the broker's (first, last) are known *)
+Definition resolve_current (cur first last : Z) : Z :=
+  if cur =? FirstOffset then first else if cur =? LastOffset then last else cur.
+
 (* cur = c.offset before the call; the result carries c.offset after it and the
    number of list-offsets requests that were sent to the broker *)
 Definition seek (cur offset whence : Z) (b : offsets_answer) : seek_out :=
@@ -117,18 +124,19 @@ Definition seek (cur offset whence : Z) (b : offsets_answer) : seek_out :=
     {| so_res := SeekBadWhence; so_offset := cur; so_requests := 0 |}
   else if dont && (w =? SeekAbsolute) then
     {| so_res := SeekOk offset; so_offset := offset; so_requests := 0 |}
-  else if dont && (w =? SeekCurrent) then
+  else if dont && (w =? SeekCurrent) && negb (is_sentinel cur) then
     {| so_res := SeekOk (wrap64 (cur + offset)); so_offset := wrap64 (cur + offset); so_requests := 0 |}
   else if (w =? SeekAbsolute) && (offset =? cur) then
     {| so_res := SeekOk offset; so_offset := cur; so_requests := 0 |}
   else
-    let offset := if w =? SeekCurrent then wrap64 (cur + offset) else offset in
     match read_offsets b with
     | (first, last, code, n) =>
       if negb (code =? 0) then {| so_res := SeekErr code; so_offset := cur; so_requests := n |}
       else
         let offset := if w =? SeekStart then wrap64 (first + offset)
-                      else if w =? SeekEnd then wrap64 (last - offset) else offset in
+                      else if w =? SeekEnd then wrap64 (last - offset)
+                      else if w =? SeekCurrent then wrap64 (resolve_current cur first last + offset)
+                      else offset in
         if (offset <? first) || (last <? offset)
         then {| so_res := SeekErr ErrOffsetOutOfRange; so_offset := cur; so_requests := n |}
         else {| so_res := SeekOk offset; so_offset := offset; so_requests := n |}
@@ -519,7 +527,7 @@ Fixpoint read_topics (v6 : bool) (conn_topic : str) (idx : list (Z * broker))
                  pt_replicas := map (make_broker idx) (mp_replicas p);
                  pt_isr := map (make_broker idx) (mp_isr p);
                  pt_offline := if v6 then map (make_broker idx) (mp_offline p) else [];
-                 pt_error := 0 |}) (mt_parts t))
+                 pt_error := mp_error p |}) (mt_parts t))
   end.
 
 Definition read_partitions (v6 : bool) (conn_topic : str) (r : md_response) : parts_result :=
